@@ -3,7 +3,7 @@
     about exact rationals (instance Q, the same Gallina text evaluated with exact arithmetic). *)
 From Coq Require Import String List Arith Bool QArith.
 From CR Require Import Model.Num Model.Outcome Model.Graph Model.Game Proofs.GraphP Proofs.PipelineP
-     Proofs.ReachQ Proofs.ReachQ2 Proofs.ReachQ3.
+     Proofs.ReachQ Proofs.ReachQ2 Proofs.ReachQ3 Proofs.C04Q Proofs.ErrBound Proofs.ReachQ4.
 Import ListNotations.
 
 (* every final state reports exactly one (any instance, in particular binary64) *)
@@ -70,6 +70,36 @@ Theorem C01_terminates : forall (g : game (T:=Q)),
   solve_reach_fuel qops fuel g prune <> OutOfFuel.
 Proof. exact reach_terminates. Qed.
 
+(* CONDITIONAL full-strength form of "within the solver's tolerance of the true value": let y be any
+   fixed point of the game's Bellman operator on the iterated states that lies above the report, agrees
+   with it elsewhere (final states: 1, states without a path: 0) and is at most 1 above it - the true
+   value is such a y. If T certifies a bounded expected absorption time (T s >= 1 + largest /
+   probability-weighted successor value of T on the iterated states, 1 <= T <= M), then the report is
+   within threshold * T s of y s at every state. (Without such a T the claim is false: next theorem.) *)
+Theorem C01_error_bound : forall (g : game (T:=Q)),
+  wf_game qops g ->
+  (forall i, nth i (g_players g) PR = PR ->
+     nonneg_w (nth i (g_trans g) []) /\ (sumw (nth i (g_trans g) []) <= 1)%Q) ->
+  forall fuel prune sl1 rs it,
+  solve_reach_fuel qops fuel g prune = Ok (sl1, rs, it) ->
+  let p := reach_vec qops sl1 in
+  exists srf, reverse_dfs (tlg g) (g_finals g) = Ok srf /\
+    forall (y T : nat -> Q) (M : Q),
+      (forall s, In s srf -> y s = gPhi g y s) ->
+      (forall s, ~ In s srf -> y s = p s) ->
+      (forall s, (y s - p s <= 1)%Q) ->
+      (forall s, (1 + B (gkd g) (gtr g) (fun s => mem_nat s srf) T s <= T s)%Q) ->
+      (forall s, (0 <= T s <= M)%Q) ->
+      forall s, (y s - p s <= q_thr * T s)%Q.
+Proof. exact reach_error_bound. Qed.
+
+(* non-vacuity of the certificate hypotheses: the 0.9-self-loop game with T = (12, 1, 11), M = 12 *)
+Example C01_certificate_exists :
+  wf_game qops k4_game /\
+  (forall s, (1 + B (gkd k4_game) (gtr k4_game) (fun s => mem_nat s [0; 2]) k4_T s <= k4_T s)%Q) /\
+  (forall s, (0 <= k4_T s <= 12)%Q).
+Proof. split; [exact k4_wf|exact k4_certificate]. Qed.
+
 (* "within the solver's tolerance of the true value" is FALSE in its error form (known finding K1):
    on a 3-state well-formed game (self-loop with escape probability 2^-21) the loop stops after one
    sweep, and the value of the 300-step game already exceeds the report by more than 100 thresholds *)
@@ -96,3 +126,4 @@ Print Assumptions C01_numeric.
 Print Assumptions C01_horizon_values_monotone.
 Print Assumptions C01_terminates.
 Print Assumptions C01_within_threshold_refuted.
+Print Assumptions C01_error_bound.
